@@ -79,6 +79,35 @@ def run_shards(prop, tier, seed, nshards, repo, budget_s, watchdog_s, work, repl
         return list(ex.map(one, jobs))
 
 
+def suite_under_monitor(prop, repo, work):
+    """The repository's own tests as one more workload: pinned test command + monitors in record mode."""
+    out = os.path.join(work, "suite.json")
+    env = dict(os.environ, RV_PLUGIN_PROPS=prop, RV_PLUGIN_OUT=out, TUCAN_VERIF_REPO=repo, TUCAN_VERIF="1",
+               PYTHONPATH=HERE + os.pathsep + os.path.join(HERE, ".deps"), PYTHONPYCACHEPREFIX=os.path.join(work, "pyc"))
+    p = subprocess.run([PY, "-m", "pytest", "-q", "-p", "no:cacheprovider", "-p", "rv.pytest_plugin", "--timeout=900", "-x", "-q"], cwd=repo, env=env,
+                       stdout=subprocess.PIPE, stderr=subprocess.STDOUT, text=True, timeout=3000)
+    if not os.path.exists(out):
+        return {"error": "suite-under-monitor run produced no result: " + p.stdout[-600:]}
+    r = json.load(open(out))
+    r["pytest_tail"] = p.stdout.strip().splitlines()[-1:] if p.stdout.strip() else []
+    return r
+
+
+def merge_suite(extra, r):
+    obs = extra.setdefault("obs", {})
+    if "error" in r:
+        extra.setdefault("inconclusive", []).append(r["error"])
+        return
+    obs["suite_under_monitor"] = {"pytest": r["pytest_tail"], "monitor_evals": r["monitor_evals"], "rebound_references": r["rebound"], "recorded_violations": r["n_recorded"]}
+    extra["evaluations"] = extra.get("evaluations", 0) + sum(r["monitor_evals"].values())
+    me = extra.setdefault("monitor_evals", {})
+    for k, v in r["monitor_evals"].items():
+        me["suite:" + k] = v
+    for rec in r["recorded"][:10]:
+        extra.setdefault("violations", []).append({"property": rec["property"], "monitor": "suite:" + rec["monitor"], "witness": {**rec["witness"], "test": rec.get("test")},
+                                                    "case": {"kind": "suite", "test": rec.get("test")}, "seed": 0, "tier": "thorough", "shard": -1})
+
+
 def get_path(d, path):
     for p in path.split("/"):
         if not isinstance(d, dict) or p not in d:
@@ -120,6 +149,9 @@ def main():
             extra = mod.post_merge(res, tier, seed, repo, work)
         else:
             extra = None
+        if spec.get("suite_under_monitor") and not a.replay and (tier == "thorough" or os.environ.get("RV_SUITE") == "1"):
+            extra = extra or {}
+            merge_suite(extra, suite_under_monitor(prop, repo, work))
     finally:
         shutil.rmtree(work, ignore_errors=True)
 
